@@ -579,6 +579,43 @@ def identity_fields(c, facts, R, adt_q, short):
     c.floor(R, 'identity impls of %s (PartialEq, Hash)' % short, n, 2)
 
 
+def unify_symmetric(c, facts, R):
+    """unification is symmetric: which operand ends up on the left depends on the order of the equations, i.e. on the order
+    of the declarations - a case for (A, B) without its mirror (B, A) makes the verdict depend on that order"""
+    fn = c.anchor(R, 'oal_compiler::inference::unify::unify')
+    pairs = set()
+    for g in facts.family(fn):
+        if not g.hir:
+            continue
+        for e, anc in hir_walk(g.hir['body']):
+            pats = []
+            if e['k'] == 'match':
+                pats = [a['pat'] for a in e['arms']]
+            elif e['k'] == 'let':
+                pats = [e['pat']]
+            for p in pats:
+                alts = p['alts'] if p['k'] == 'or' else [p]
+                for q in alts:
+                    while q['k'] == 'ref':
+                        q = q['p']
+                    if q['k'] == 'tuple' and len(q.get('subs', [])) == 2:
+                        vs = []
+                        for sub in q['subs']:
+                            while sub['k'] == 'ref':
+                                sub = sub['p']
+                            v = (pat_variants(sub) or [None])[0] if sub['k'] in ('ts', 'struct', 'path') else None
+                            vs.append(v)
+                        if all(vs):
+                            pairs.add(tuple(vs))
+    c.floor(R, 'two-sided cases of unify', len(pairs), 2)
+    lone = sorted(p for p in pairs if p[0] != p[1] and (p[1], p[0]) not in pairs)
+    inst = {'cases': sorted('%s/%s' % p for p in pairs)}
+    if lone:
+        c.bad(R, 'unify:one-sided-case:%s' % ','.join('%s-%s' % p for p in lone), 'unify() has a case for %s without the mirrored one: which side a tag is on depends on the order of the equations, so permuting declarations changes the verdict' % ['(%s, %s)' % p for p in lone], **inst)
+    else:
+        c.ok(R, inst)
+
+
 def identity_first(c, facts, R):
     """occurs(a, b) is asked only when a != b: the equality short-circuit dominates the variable branches"""
     import pathrules as P
